@@ -19,6 +19,7 @@ import FendModel.Model.NumLit
 import FendModel.Model.Root
 import FendModel.Model.Parser
 import FendModel.Model.Scope
+import FendModel.Model.Elementary
 
 open Fend Fend.Proto
 
@@ -616,6 +617,20 @@ def scopeLine (line : String) : String :=
       | _ => go rest vs ("bad-op" :: acc)
   " ;; ".intercalate (go inputs [] [])
 
+/-- `sin <m>` | `cos <m>` (argument m·π/6, m an integer) | `from_f64 <bits of the magnitude>` -/
+def elemLine (line : String) : String :=
+  match line.trimAscii.toString.splitOn " " with
+  | ["sin", m] => match m.toInt? with
+    | some m => (match Fend.Elem.sinPi m with | some q => "exact " ++ showRatQ q | none => "approx")
+    | none => "bad-op"
+  | ["cos", m] => match m.toInt? with
+    | some m => (match Fend.Elem.cosPi m with | some q => "exact " ++ showRatQ q | none => "approx")
+    | none => "bad-op"
+  | ["from_f64", b] => match b.toNat? with
+    | some b => (match Fend.Elem.fromF64 b with | .ok q => "ok " ++ showRatQ q | .error _ => "err valueTooLarge")
+    | none => "bad-op"
+  | _ => "bad-op"
+
 partial def loop (h : IO.FS.Stream) (out : IO.FS.Stream) (f : String → String) : IO Unit := do
   let line ← h.getLine
   if line.isEmpty then return ()
@@ -645,6 +660,7 @@ def main (args : List String) : IO UInt32 := do
   | ["roots"] => loop stdin stdout rootsLine; return 0
   | ["parse"] => loop stdin stdout parseLine; return 0
   | ["scope"] => loop stdin stdout scopeLine; return 0
+  | ["elem"] => loop stdin stdout elemLine; return 0
   | ["numlit"] => loop stdin stdout numlitLine; return 0
   | ["clirun"] => loop stdin stdout clirunLine; return 0
   | _ => IO.eprintln "usage: fend_model_driver <stream>"; return 2
